@@ -4194,4 +4194,4 @@ mod test {
 // verification hooks (glass_easel_verif): compiled only under the cfg guard
 #[cfg(any(kani, glass_easel_verif))]
 #[path = "/verif/hooks/tc_parse_tag.rs"]
-mod verif;
+pub mod verif;
